@@ -78,7 +78,32 @@
    once, Get2 callers).  c18_ants_task_protocol_race_free / c18_taskx_task_protocol_race_free:
    no happens-before race for any number of attempts, late handlers, Get2 callers, any schedule.
    c18_ants_err_peek_refuted / c18_taskx_do_twice_refuted: Task.Err() called before Get2 returned,
-   and a second Do while Get2 callers read, DO race (usages outside the protocol). *)
+   and a second Do while Get2 callers read, DO race (usages outside the protocol).
+
+   Flag / AddIf64, Mutex, taskx.Queue (the remaining components the property names; end of this file).
+   The existing step functions are labelled, not re-modelled: at_step (models/Atomics.v, stepped
+   against flag.go / atomic.go by C17) in models/RaceAtomics.v, mx_step (models/MutexWord.v: Lock /
+   Unlock re-modelled from sync.Mutex + loom's TryLock, whose accesses C17 steps against mutex.go)
+   in models/RaceMutex.v, tq_gstep (models/TaskQueue.v, replayed against queue.go /
+   task_callback.go by C09) in models/RaceTaskQueue.v; c18_atomics_run_projects,
+   c18_mutex_run_projects, c18_taskq_trace_projects: the labelled run IS the run of the model.
+   Flag / AddIf64 and the Mutex state word are accessed ONLY through sync/atomic: the theorems
+   c18_atomics_model_all_atomic / c18_mutex_word_all_atomic say "no plain access at all" (every
+   event of every run is a synchronisation event), c18_atomics_model_race_free is the corollary;
+   c18_mutex_model_race_free is about what the mutex is for: client data read / written only while
+   the model says the thread HOLDS the mutex (acquired by Lock's fast path, lockSlow's CAS, the
+   starvation hand-off, TryLock's first or second CAS) never races, with Count / IsLocked observers
+   running at any time.  c18_taskq_model_race_free: producers (any number; allocation of the
+   taskCallback = plain writes before the send), parked senders admitted by a receive or woken by
+   close, the single consumer (receive = acquire on the task's message; Do's plain writes of result,
+   err, isHandled before wg.Done = release), and any number of Get2 waiters (acquire at the return of
+   wg.Wait, then plain reads; also when released inside the Done step) never race, for every
+   capacity, program and schedule.  Refutations in the same labelled models: c18_atomics_plain_refuted
+   (AddFlag as plain read-modify-write), c18_mutex_trylock_plain_refuted, c18_taskq_ishandled_early_refuted
+   (seeded C09-ishandled-early-plus-get-fastpath), c18_taskq_done_release_needed (= wg.Done before the
+   result store), c18_taskq_receive_needed.  NOT covered by a model-level theorem: the ants Pool
+   (models/Ants.v is a timed event machine): protocol machine for its task result above, detector,
+   access table. *)
 From Coq Require Import String.
 From Got Require Import Base Race RaceProofs RaceInst RaceHB RaceHBProofs RaceMonLemmas.
 From Got Require Import Queue QueueProofs RaceQueue RaceQueueProofs.
